@@ -80,9 +80,9 @@ class NovelOrfSelection(Contract):
 
     @property
     def models(self):
-        return (self.install,)
+        return (self.install_models,)
 
-    def install(self, reg):
+    def install_models(self, reg):
         c = self
         noop = lambda I, a, k: None
         reg.func_('moPepGen/cli/common.py', 'validate_file_format', noop)
